@@ -187,7 +187,7 @@ def line_pool(tables, rng, quick, rendered):
                 pool.append(("example_line", r["index"], first))
     rl = list(rendered)
     rng.shuffle(rl)
-    for row, line in rl[:(800 if quick else 20000)]:
+    for row, line in rl[:(800 if quick else 8000)]:
         pool.append(("rendered", row, line.split(b"\n")[0] + b"\n"))
     sampled = failed = 0
     for r in rows:
@@ -201,7 +201,7 @@ def line_pool(tables, rng, quick, rendered):
             pre = rng.choice(["", "", "x ", " ", "2024 "]) if not r["regex"].startswith("^") else ""
             pool.append(("sampled", r["index"], (pre + s + rng.choice(["", " tail", "\n", " 1\n"])).encode("utf-8")))
     base = list(pool)
-    nmut = 1100 if quick else 30000
+    nmut = 1100 if quick else 12000
     for _ in range(nmut):
         tag, row, line = rng.choice(base)
         hint = None
@@ -363,7 +363,9 @@ def pipeline_stage(ctx, blines, outl, quick):
     rng = ctx.rng
     n = len(blines)
     idx = list(range(n))
-    full = set(rng.sample(idx, min(n, 350 if quick else 6000)))
+    if len(idx) > 40000:
+        idx = sorted(rng.sample(idx, 40000))
+    full = set(rng.sample(idx, min(len(idx), 350 if quick else 4000)))
     items, ids = [], []
     for i in idx:
         o = outl[i]
